@@ -182,6 +182,11 @@ class SymStr:
         enc = _norm(encoding)
         if enc == s.enc:
             return core.mkbytes(s.items)
+        if {enc, s.enc} == {"utf-16-be", "utf-16-le"}:
+            sw = []
+            for i in range(0, len(s.items) - 1, 2):
+                sw += [s.items[i + 1], s.items[i]]
+            return core.mkbytes(sw)
         raise Unsupported(f"re-encoding a symbolic string from {s.enc} to {enc}")
 
     def __repr__(s):
